@@ -124,7 +124,11 @@ class Job(BaseJob[Callable[..., None]]):
             return f"scheduler.Job({params_sum})"
 
     def __str__(self) -> str:
-        return f"{super().__str__()}, w={self.weight:.3g}"
+        try:
+            weight = f"{self.weight:.3g}"
+        except OverflowError:  # an int beyond the float range has no 'g' presentation
+            weight = str(self.weight)
+        return f"{super().__str__()}, w={weight}"
 
     def timedelta(self, dt_stamp: Optional[dt.datetime] = None) -> dt.timedelta:
         with self.__lock:
